@@ -1000,6 +1000,23 @@ func (c *Chunker) splitBySentences(text string, section *Section, chunkIndex *in
 	chunks := make([]*Chunk, 0)
 	sentences := splitIntoSentences(text)
 
+	// A single sentence (or text without sentence punctuation) may itself
+	// exceed the hard limit: break it further at word boundaries.
+	if c.config.MaxChunkSize > 0 {
+		sizeCalc := NewSizeCalculatorWithConfig(SizeConfig{
+			Max: SizeLimit{Value: c.config.MaxChunkSize, Unit: SizeUnitCharacters, Type: LimitTypeHard},
+		})
+		units := make([]string, 0, len(sentences))
+		for _, sentence := range sentences {
+			if len(sentence) > c.config.MaxChunkSize {
+				units = append(units, sizeCalc.SplitToSize(sentence, nil)...)
+			} else {
+				units = append(units, sentence)
+			}
+		}
+		sentences = units
+	}
+
 	var currentText strings.Builder
 	for _, sentence := range sentences {
 		addedLen := len(sentence)
